@@ -313,7 +313,7 @@ Definition frozen_clientDial : list string :=
       "0 call c.randMu.Unlock()";
       "0 assign k := &sessionKey{ ID: c.ids.next(), Key: key, }";
       "0 assign box := c.office.newBox(k)";
-      "0 defer box.cleanUp()";
+      "0 defer box.discard()";
       "0 assign resp := new(dialResponse)";
       "0 if c.options.DialWithAddr";
       "1 assign req := &dialSide2Request{ session: k.ID, key: k.Key, token: token, tcpAddr: asAddr, }";
